@@ -378,27 +378,88 @@ stored on first read, all dropped by `set_input`), every causality array read is
 pairwise spectra placed by `_dict2arr` — of the fitted models of the input held AT THAT MOMENT, and
 every frequency axis is the axis of that input's sampling rate. -/
 theorem analyzer_retarget_spectra (nf : ℕ) (ops : List (Op AIn)) (d : AIn) :
-    run (fun d : AIn => some d.pairs) (fun d ps => anaArrays d.nproc nf ps) (analyzerAxis nf) ops
+    run AIn.fitted (fun d ps => anaArrays d.nproc nf ps) (analyzerAxis nf) ops
         (construct d)
-      = ref (fun d : AIn => some d.pairs) (fun d ps => anaArrays d.nproc nf ps) (analyzerAxis nf) ops d :=
+      = ref AIn.fitted (fun d ps => anaArrays d.nproc nf ps) (analyzerAxis nf) ops d :=
   run_eq_ref _ _ _ ops d
 
 /-- in particular, whatever was read before: after `set_input(d')` the spectra and the axis are those of `d'` -/
 theorem analyzer_spectra_after_set_input (nf : ℕ) (pre : List (Op AIn)) (d0 d' : AIn) :
-    run (fun d : AIn => some d.pairs) (fun d ps => anaArrays d.nproc nf ps) (analyzerAxis nf)
+    run AIn.fitted (fun d ps => anaArrays d.nproc nf ps) (analyzerAxis nf)
         (pre ++ [.setInput d', .readModel, .readGC, .readFreqs]) (construct d0)
-      = ref (fun d : AIn => some d.pairs) (fun d ps => anaArrays d.nproc nf ps) (analyzerAxis nf) pre d0 ++
-        [.done, .model (some d'.pairs), .gc (some (anaArrays d'.nproc nf d'.pairs)), .freqs (analyzerAxis nf d')] :=
+      = ref AIn.fitted (fun d ps => anaArrays d.nproc nf ps) (analyzerAxis nf) pre d0 ++
+        [.done, .model d'.fitted, .gc (d'.fitted.map (anaArrays d'.nproc nf)), .freqs (analyzerAxis nf d')] :=
   read_after_setInput _ _ _ pre d0 d'
 
 /-- non-vacuity: read, re-target, read -/
 example (nf : ℕ) (d0 d' : AIn) :
-    run (fun d : AIn => some d.pairs) (fun d ps => anaArrays d.nproc nf ps) (analyzerAxis nf)
+    run AIn.fitted (fun d ps => anaArrays d.nproc nf ps) (analyzerAxis nf)
         [.readGC, .setInput d', .readGC] (construct d0)
-      = [.gc (some (anaArrays d0.nproc nf d0.pairs)), .done, .gc (some (anaArrays d'.nproc nf d'.pairs))] := by
+      = [.gc (d0.fitted.map (anaArrays d0.nproc nf)), .done, .gc (d'.fitted.map (anaArrays d'.nproc nf))] := by
   rw [analyzer_retarget_spectra]; rfl
 
+/-- **L7: a failed read leaves nothing behind.** The first input's fitting raises (`ok = false`): the read raises;
+after `set_input(d')` every array and the axis are those of `d'` alone -/
+theorem analyzer_spectra_after_failed_fit (nf : ℕ) (d0 d' : AIn) (h0 : d0.ok = false) :
+    run AIn.fitted (fun d ps => anaArrays d.nproc nf ps) (analyzerAxis nf)
+        [.readGC, .readModel, .setInput d', .readGC, .readFreqs] (construct d0)
+      = [.gc none, .model none, .done, .gc (d'.fitted.map (anaArrays d'.nproc nf)), .freqs (analyzerAxis nf d')] := by
+  rw [analyzer_retarget_spectra]
+  simp [ref, AIn.fitted, h0]
+
 end retarget
+
+/-! ### L8: two of the four response arrays may be ONE object (`Model/C12.lean`: `Roles`, `storeOf`, `transferShared`) -/
+
+section sharing
+
+lemma obj_storeOf (c : Coefs ℂ) (z : ℂ) (i : ℕ) (hi : i < 4) :
+    obj (storeOf c z) i = polyEval (polyOf c i) z := by
+  unfold obj storeOf
+  have h4 : i = 0 ∨ i = 1 ∨ i = 2 ∨ i = 3 := by omega
+  rcases h4 with rfl | rfl | rfl | rfl <;> rfl
+
+/-- **C12 sharing.** Whichever of the four response arrays are one object — any binding a coefficient-keyed memo can
+produce: names bound to objects evaluated from EQUAL coefficient rows — the value `transfer_function_xy` computes by
+READING them is the transfer function of the coefficients. -/
+theorem transfer_function_value_independent_of_sharing (r : Roles) (c : Coefs ℂ) (z : ℂ) (hv : r.Valid c) :
+    transferShared r (storeOf c z) = transferAt c z := by
+  obtain ⟨⟨ha, hb, hc, hd⟩, ea, eb, ec, ed⟩ := hv
+  unfold transferShared transferAt polyA
+  rw [obj_storeOf c z _ ha, obj_storeOf c z _ hb, obj_storeOf c z _ hc, obj_storeOf c z _ hd, ea, eb, ec, ed]
+  rfl
+
+/-- the old contract (four distinct fresh arrays): the in-place discipline computes the same values -/
+theorem transfer_inplace_distinct_objects (c : Coefs ℂ) (z : ℂ) :
+    transferSharedInplace ⟨0, 1, 2, 3⟩ (storeOf c z) = transferAt c z := by
+  simp [transferSharedInplace, negateObj, obj, storeOf, transferAt, transferOfA, polyA, polyOf, List.range, List.range.loop]
+
+/-- **counter-model (seed C12-11).** `bw is cw` (reciprocal coupling served by one array): negating "both" in place
+negates the one object twice; the off-diagonal of `H` comes out with the wrong sign. Store: `aw = 2`, `bw = cw = 1`
+(object 1), `dw = 1`, so `det = 1` and `H = [[1, -1], [-1, 2]]`. -/
+theorem transfer_inplace_negation_counterexample :
+    (transferShared ⟨0, 1, 1, 3⟩ ([2, 1, 1, 1] : List ℂ)).m01 = -1 ∧
+    (transferSharedInplace ⟨0, 1, 1, 3⟩ ([2, 1, 1, 1] : List ℂ)).m01 = 1 ∧
+    transferSharedInplace ⟨0, 1, 1, 3⟩ ([2, 1, 1, 1] : List ℂ) ≠ transferShared ⟨0, 1, 1, 3⟩ [2, 1, 1, 1] := by
+  have h1 : (transferShared ⟨0, 1, 1, 3⟩ ([2, 1, 1, 1] : List ℂ)).m01 = -1 := by
+    simp [transferShared, transferOfA, obj]; norm_num
+  have h2 : (transferSharedInplace ⟨0, 1, 1, 3⟩ ([2, 1, 1, 1] : List ℂ)).m01 = 1 := by
+    simp [transferSharedInplace, negateObj, obj]; norm_num
+  refine ⟨h1, h2, fun h => ?_⟩
+  have := congrArg M2.m01 h
+  rw [h1, h2] at this
+  norm_num at this
+
+/-- in general: with `bw is cw` the in-place discipline returns `+bw/det` where the code's value is `-bw/det` -/
+theorem transfer_inplace_shared_offdiag (s : List ℂ) (ra rb rd : ℕ) (hb : rb < s.length) :
+    (transferSharedInplace ⟨ra, rb, rb, rd⟩ s).m01 = -(transferShared ⟨ra, rb, rb, rd⟩ s).m01 := by
+  simp [transferSharedInplace, transferShared, transferOfA, negateObj, obj, List.getD_eq_getElem?_getD, hb, neg_div]
+
+/-- non-vacuity of `Valid` beyond the identity binding: reciprocal coupling, `cw` bound to `bw`'s object -/
+example (p q s : List ℂ) : (⟨0, 1, 1, 3⟩ : Roles).Valid (⟨p, q, q, s⟩ : Coefs ℂ) :=
+  ⟨⟨by decide, by decide, by decide, by decide⟩, rfl, rfl, rfl, rfl⟩
+
+end sharing
 
 /-! ### non-vacuity: `H = I`, `Σ = I` meets every hypothesis -/
 
